@@ -416,7 +416,7 @@ func (c *pathParser) addArcFromA(points []Fl) {
 		float64(c.currentY), float64(points[5]), float64(points[6]), points[4] == 0, points[3] == 0)
 	points[0], points[1] = Fl(ra), Fl(rb)
 
-	c.currentX, c.currentY = c.addArc(c.points, Fl(cx), Fl(cy), c.currentX, c.currentY)
+	c.currentX, c.currentY = c.addArc(points, Fl(cx), Fl(cy), c.currentX, c.currentY)
 }
 
 // addArc adds an arc to the adder p
